@@ -37,6 +37,8 @@ pub fn feature_sets(tier: Tier) -> Vec<FeatureSet> {
         for drop in OPTIONAL {
             out.push(mk(all.iter().copied().filter(|f| *f != drop).collect(), false));
         }
+        // the only way to cover the SIMD code paths: one nightly build with everything on
+        out.push(mk(vec!["std", "cache-type-score", "fix-weight-length", "charwise-pma", "tag-prediction", "portable-simd"], true));
     } else {
         for mask in 0..16u32 {
             for std in [false, true] {
@@ -99,6 +101,16 @@ pub fn cases(tier: Tier) -> CaseSet {
         models.push((c.desc, c.spec));
     }
     for (d, spec) in crate::c01::edge_family() {
+        models.push((d, spec));
+    }
+    // value-dependent layout choices: sparse long weight vectors, zero-pattern tag vectors, nested tag n-grams
+    for (d, spec) in crate::c01::sparse_large_window_family() {
+        models.push((d, spec));
+    }
+    for (d, spec) in crate::c06::zero_tag_family() {
+        models.push((d, spec));
+    }
+    for (d, spec) in crate::c06::nested_tag_family().into_iter().step_by(tier.pick(11, 3)) {
         models.push((d, spec));
     }
     let texts = gen::strings(&['a', 'b', 'あ', '𠀋'], 1, 4);
@@ -220,7 +232,7 @@ pub fn run(tier: Tier) -> ! {
     chk.assume("all builds are compared with the same reference model, hence with each other, case by case");
     chk.assume("tags are compared only in builds with tag-prediction; no-std builds are driven through a std worker binary");
     chk.finish(
-        "feature sets (quick: default, alloc-only, default minus each optional feature; thorough: all 16 subsets of {cache-type-score, fix-weight-length, charwise-pma, tag-prediction} x {std, no std} plus portable-simd on nightly) x sub-sampled C01 families F1/F1b/F2/F4 and C06 tag-model families x all texts up to 4 characters over {a,b,あ,𠀋}; every worker output line (scores, boundaries, tags) must equal the reference; non-trivial = some score differs from 0; distinct (feature set, model, text) by construction",
+        "feature sets (quick: default, alloc-only, default minus each optional feature, default + portable-simd on nightly; thorough: all 16 subsets of {cache-type-score, fix-weight-length, charwise-pma, tag-prediction} x {std, no std} plus portable-simd on nightly) x sub-sampled C01 families F1/F1b/F2/F4 and C06 tag-model families x all texts up to 4 characters over {a,b,あ,𠀋}; every worker output line (scores, boundaries, tags) must equal the reference; non-trivial = some score differs from 0; distinct (feature set, model, text) by construction",
         true,
         &replay,
     )
